@@ -4,7 +4,7 @@
    checker chk_C09 that is evaluated on every event the implementation returns. *)
 From Coq Require Import List Ascii String NArith ZArith Bool Arith Lia.
 Import ListNotations.
-Require Import KV Parser ChkCoalesce CoalesceProofs.
+Require Import KV Parser ChkCoalesce CoalesceProofs CoalesceCompound.
 Local Close Scope N_scope.
 
 (* newEvent: for every record whose keys are pairwise different (a Go map), every field other
@@ -19,6 +19,24 @@ Theorem C09_result_session : forall d e,
   m_result (distribute d e) = Some (match fget (L "result") d with Some x => x | None => L "unknown" end) /\
   m_session (distribute d e) = fget (L "ses") d.
 Proof. exact distribute_result_session. Qed.
+(* normalizeCompound: a record in the middle of a compound event, of a type with no routing of its own
+   (not SYSCALL / PATH / SOCKADDR / EXECVE), whatever precedes and follows it: every field whose key no
+   other record type may overwrite (not items, argc, socket_...) is in Data at the end - with the written
+   value if the key was new and the record's keys are pairwise different - and if the key was already
+   taken, the warning count has grown *)
+Theorem C09_compound_fields_kept : forall l1 r l2 e0 d k v,
+  generic r = true -> r_data r = Some d -> In (k, v) d -> safe_key k = true ->
+  let e1 := fold_left route l1 e0 in
+  let e := fold_left route (l1 ++ r :: l2) e0 in
+  (exists v', fget k (m_data e) = Some v' /\ (fget k (m_data e1) = None -> NoDup (map fst d) -> v' = v)) /\
+  (fget k (m_data e1) <> None -> m_warn e1 < m_warn e).
+Proof. exact compound_fields_kept. Qed.
+(* every PATH record is in Paths at the end, whatever precedes and follows it *)
+Theorem C09_compound_paths_kept : forall l1 r l2 e0 d,
+  is_syscall r = false -> N.eqb (r_type r) MsgTypes.AUDIT_PATH = true -> r_data r = Some d ->
+  In d (m_paths (fold_left route (l1 ++ r :: l2) e0)).
+Proof. exact compound_paths_kept. Qed.
+
 (* an error instead of a partial event: no records, or several records without a SYSCALL record *)
 Theorem C09_error_not_partial : model_event [] = None /\
   forall rs, (2 <= List.length (filter_eoe rs))%nat -> existsb is_syscall (filter_eoe rs) = false -> model_event rs = None.
@@ -36,5 +54,7 @@ Proof. intros mode. split; [reflexivity|]. intros H. unfold spec_type. rewrite H
 
 Print Assumptions C09_primary_nothing_dropped_partial.
 Print Assumptions C09_result_session.
+Print Assumptions C09_compound_fields_kept.
+Print Assumptions C09_compound_paths_kept.
 Print Assumptions C09_error_not_partial.
 Print Assumptions C09_object_type_variants.
